@@ -62,6 +62,18 @@ Proof.
 Qed.
 Print Assumptions C20_next_hop_is_neighbour_refuted.
 
+(* A neighbour that is connected now - the last appearance / disappearance event about it is an
+   appearance - is live (loss time 0, link cost 0) in the node's own link state after EVERY history:
+   lost and come back before the purge, purged and come back, any number of times; no purge removes
+   it while it is connected.  (Together with C20_table_spec: the next hop is the first hop of a
+   least-cost path in the graph in which the links to the connected neighbours cost 0.) *)
+Theorem C20_connected_neighbour_live : forall st ops p now,
+  dt_connected ops p = true ->
+  dt_assoc_get p (dt_own (dt_run st ops)) = Some 0%N /\
+  In (p, 0%N) (dt_own (dt_run st ops)) /\ dt_edge_cost now 0 = 0%Z.
+Proof. exact connected_neighbour_live. Qed.
+Print Assumptions C20_connected_neighbour_live.
+
 (* The checkers the correspondence run applies to the routing table produced by the Go code decide
    exactly the property's predicates. *)
 Theorem C20_checker_exact : forall n g d h, wf_graph n g -> nonneg g -> 0 < n ->
@@ -164,4 +176,14 @@ Example C20_example_forward :
   /\ dt_forward_select [(3, 1)]%N [1; 2; 3]%N [] false (mk_dest 3 false) = ([3], [], true)%N
   /\ dt_forward_select [(3, 1)]%N [1; 2]%N [2]%N true (mk_dest 99 true) = ([1], [2; 1], false)%N
   /\ dt_bcast_run [2]%N [[1; 2]; [1; 2; 4]; [4; 5]]%N = [[1]; [4]; [5]]%N.
+Proof. vm_compute. repeat split; reflexivity. Qed.
+
+(* a neighbour that comes back: lost at 4000, back at 5000 - live again, the purge at 9000000 (purge
+   time 3050000) leaves it alone, node 3 behind it keeps its route; neighbour 2, lost and not back, is purged *)
+Example C20_example_reappear :
+  let ops := [DtAppear 1 1000; DtAppear 2 1500; DtDisappear 1 4000; DtDisappear 2 4500; DtAppear 1 5000;
+              DtNotify (mk_pd 1 3000 [(3, 0)]%N); DtPurge 9000000 3050000; DtCompute 9000000]%N in
+  let st := dt_run (dt_init 0 0) ops in
+  dt_connected ops 1 = true /\ dt_connected ops 2 = false
+  /\ dt_own st = [(1, 0)]%N /\ dt_table st = [(1, 1); (3, 1)]%N.
 Proof. vm_compute. repeat split; reflexivity. Qed.
